@@ -47,6 +47,29 @@ CHECKS = {
              "--match-links + --symbolic-links is never generated. Known finding D18 (--isolate with -S) is listed in "
              "known_findings.json.",
         design="4/C02"),
+    "C08": dict(
+        category="exploration",
+        technique="runtime monitoring: real dedupe command lines vs a reference partition model; bash-decoded dry-run script and shim-logged real run",
+        text="For generated groups (2..8 files, hard-link subsets, 1-3 roots, tied/distinct a/m/c/b-times and nesting) and real "
+             "command lines (12 priorities single and chained, --name/--path/--keep-name/--keep-path globs, n given by -n, "
+             "--rf-over or inherited, --isolate/-H inherited from the report header, text and JSON reports) the set of paths "
+             "the --dry-run script names (decoded by bash) and the set of paths the real run processes (LD_PRELOAD event log "
+             "and inventory diff) must both equal the drop set of an independent model of the documented rules.",
+        note=COMMON_NOTE + "Sub-group time keys follow the doc comments; a group whose outcome would differ under the opposite "
+             "(min/max) aggregation is skipped as ambiguous and counted. Patterns use the README glob dialect via fcv/globref.py.",
+        design="4/C08"),
+    "C16": dict(
+        category="exploration",
+        technique="runtime monitoring at library level: bounded-exhaustive differential run of Pattern/PathSelector against a reference glob matcher",
+        text="Through the verif_api hook the harness compiles every glob of <=4 (thorough: <=5) tokens over the documented "
+             "constructs, as absolute and as base-dir-relative patterns, and compares Pattern::matches with an independent "
+             "backtracking matcher on ~900 paths (incl. newline, non-ASCII, regex metacharacters); for every matching path "
+             "all ancestor directories must pass matches_partially / PathSelector::matches_dir (conservative pruning), "
+             "excluded-directory pruning must only hide excluded paths, and --ignore-case is swept. The bounded part is "
+             "exhaustive; longer globs are random.",
+        note=COMMON_NOTE + "Reference matcher written from the README table only. Undefined constructs are skipped. Known finding "
+             "D6 (multi-byte literal prefix) is listed in known_findings.json.",
+        design="4/C16"),
 }
 
 NOT_YET = {}
